@@ -2091,10 +2091,18 @@ class Interp:
         src, body, conds = self.as_pipeline(recv, eid)
         flat = recv[5] if recv[0] == 'star' else False
         self.frame['loops'].append((eid, src, conds))
+        n_eff0 = len(self.effects.get(self.frames[0]['fn'], []))
         try:
             r = self.call_value(fn, [body])
         finally:
             self.frame['loops'].pop()
+        if m in ('any', 'all', 'find', 'find_map', 'position', 'take_while', 'skip_while', 'map_while', 'try_for_each', 'is_some_and'):
+            # a short-circuiting consumer / prefix adapter stops calling the closure once it has its answer: whatever the closure *does* (a
+            # recursive visit, an insertion, an update) happens for a prefix of the elements only - recorded as a condition of those effects
+            pseudo = ('t', ('unknown', 'short-circuit', node.get('line', 0), m))
+            for x_ in self.effects.get(self.frames[0]['fn'], [])[n_eff0:]:
+                if x_['kind'] in ('reccall', 'mutate', 'assign') and eid in [l_[0] for l_ in x_.get('loops', ())]:
+                    x_['cond'] = pseudo if x_['cond'] == TRUE else ('and', [x_['cond'], pseudo])
         if m in ('map', 'inspect'):
             return ('star', src, eid, r if m == 'map' else body, conds, flat)
         if m in ('filter', 'take_while', 'skip_while'):
